@@ -155,6 +155,8 @@ class LogarithmicUnitType(UnitType):
         'Pa_BSPL':  ("_convert_Ratio_B",   2,   50),
         'BSPL_Pa':  ("_convert_B_Ratio",   2,   0.02),
         # same decibel conversions
+        'Np_Np':    ("_convert_B_B",       0),
+        'B_B':      ("_convert_B_B",       0),
         'Bm_Bm':    ("_convert_B_B",       0),
         'BW_BW':    ("_convert_B_B",       0),
         'BmW_BmW':  ("_convert_B_B",       0),
